@@ -179,6 +179,7 @@ fn seq_order<C: CI>(ctx: &mut Ctx) {
     ctx.group(&format!("{name}/seq-order-equal-length"), |ctx| {
         let mut lens = boundary_lengths(a.bits, 3);
         lens.retain(|l| *l > 0);
+        lens.extend(long_lengths(a.bits)); // block-wise comparison shortcuts only engage on long sequences
         if ctx.lite {
             lens = vec![1, 2, pw + 1];
         }
@@ -192,8 +193,13 @@ fn seq_order<C: CI>(ctx: &mut Ctx) {
                 // differ at first / last / word-boundary / random positions, or equal
                 let pos = match r % 6 { 0 => Some(0), 1 => Some(n - 1), 2 => Some((pw - 1).min(n - 1)), 3 => Some(pw.min(n - 1)), 4 => None, _ => Some(ctx.rng.below(n)) };
                 if let Some(i) = pos {
-                    y[i] = *ctx.rng.pick(&codes);
-                    if r % 4 == 0 {
+                    // a different symbol; every third time the numerically closest one (differs in the low bits only)
+                    y[i] = if r % 3 == 0 {
+                        let mut near: Vec<u8> = codes.iter().copied().filter(|c| *c != x[i]).collect();
+                        near.sort_by_key(|c| (*c ^ x[i], *c));
+                        near[ctx.rng.below(near.len().min(2))]
+                    } else { *ctx.rng.pick(&codes) };
+                    if r % 4 == 0 && r % 3 != 0 {
                         let j = ctx.rng.below(n);
                         y[j] = *ctx.rng.pick(&codes);
                     }
@@ -342,7 +348,7 @@ fn main() {
             ord_k64!(minimiser, usize, ctx);
             ord_k64!(seq_vs_kmer, usize, ctx);
         }
-        ctx.note("rule", json!("k-mers of the five codecs whose symbols are Ord (dna, text, masked dna, masked iupac, degenerate; k-mers over iupac/amino do not implement Ord in this library): every (K,storage): ALL pairs when K*BITS<=8, ALL triples when K*BITS<=6 (transitivity), random pairs sharing suffixes of every length, antisymmetry, consistency with ==, numeric order of the integers; min/max/sort over kmers::<K>() of random slices at random offsets vs the model's colexicographic minimiser; owned sequences of all 7 codecs: equal-length pairs differing at first/last/word-boundary/random positions, built five ways (parse, to_owned of an offset slice, truncate of a longer one, remove of a tail, push with spare capacity) must order colexicographically and like the k-mers; unequal lengths: total order consistent with ==. Distinct = (codec,K,storage,x,y) resp. (codec,x,y,provenances)."));
+        ctx.note("rule", json!("k-mers of the five codecs whose symbols are Ord (dna, text, masked dna, masked iupac, degenerate; k-mers over iupac/amino do not implement Ord in this library): every (K,storage): ALL pairs when K*BITS<=8, ALL triples when K*BITS<=6 (transitivity), random pairs sharing suffixes of every length, antisymmetry, consistency with ==, numeric order of the integers; min/max/sort over kmers::<K>() of random slices at random offsets vs the model's colexicographic minimiser; owned sequences of all 7 codecs: equal-length pairs (every length class to 3 words and long ones of 4..33 words) differing at first/last/word-boundary/random positions by a random or by the numerically closest symbol, built five ways (parse, to_owned of an offset slice, truncate of a longer one, remove of a tail, push with spare capacity) must order colexicographically and like the k-mers; unequal lengths: total order consistent with ==. Distinct = (codec,K,storage,x,y) resp. (codec,x,y,provenances)."));
         ctx.note("assumptions", json!(["for unequal-length sequences no particular order is demanded (the property speaks of equal lengths)"]));
     });
 }
